@@ -351,6 +351,17 @@ class Machine:
             kw['custom'] = {':--x': 'p'}
         elif extra == 'custom-empty':
             kw['custom'] = {}
+        elif extra == 'same':
+            # extra arguments that merely repeat what the object was compiled with are still extra arguments
+            key = self.keys[k]
+            if key.get('ns') is not None:
+                kw['namespaces'] = dict(key['ns'])
+            elif key.get('custom') is not None:
+                kw['custom'] = dict(key['custom'])
+            elif key.get('flags'):
+                kw['flags'] = key['flags']
+            else:
+                extra = None
         try:
             with sched.traced():
                 r = self.sv.compile(o, **kw)
@@ -663,7 +674,7 @@ def gen_history(rng, nkeys, length, mode):
         elif r < 0.60:
             ops_.append({'op': 'recompile', 'obj': rng.randrange(50),
                          'extra': rng.choice([None, None, 'flags', 'namespaces', 'custom', 'namespaces-empty',
-                                              'custom-empty'])})
+                                              'custom-empty', 'same', 'same'])})
         elif r < 0.70:
             how = rng.choice(['copy', 'deepcopy', 'pickle', 'pickle'])
             op = {'op': 'clone', 'obj': rng.randrange(50), 'how': how}
@@ -735,11 +746,8 @@ def _depth():
     return n
 
 
-def execute(sv, workload, bound, policy_spec=None, sched_seed=0, pairs_seed=0):
-    """Run one history.  Returns a result dict (pure data)."""
-
-    from props import c14
-    m = Machine(sv, workload['keys'], bound)
+def _reference_child(sv, keys, bound):
+    m = Machine(sv, keys, bound)
     old_stdout = sys.stdout
     sys.stdout = m.stdout
     try:
@@ -749,6 +757,32 @@ def execute(sv, workload, bound, policy_spec=None, sched_seed=0, pairs_seed=0):
                 m.build_reference()
         except env.SlowOperation:
             return {'discarded': 'slow-operation-in-reference-pass'}
+        return m.F
+    finally:
+        sys.stdout = old_stdout
+
+
+def execute(sv, workload, bound, policy_spec=None, sched_seed=0, pairs_seed=0):
+    """Run one history.  Returns a result dict (pure data)."""
+
+    from props import c14
+    m = Machine(sv, workload['keys'], bound)
+    old_stdout = sys.stdout
+    sys.stdout = m.stdout
+    try:
+        env.canonical_state(sv)
+        # the reference table is computed in a forked child: this process reaches the history without having parsed
+        # anything, so first-use effects (lazy initialisation aborted by a fault, raced by a peer) stay reachable
+        from sim import runner
+        try:
+            F = runner.isolated(_reference_child, sv, workload['keys'], bound, hang_s=120)
+        except RuntimeError as e:
+            if 'signal=14' in str(e):
+                return {'discarded': 'slow-operation-in-reference-pass'}
+            raise
+        if isinstance(F, dict):
+            return F
+        m.F = F
         m.check_bound(after_purge=True, where='start')
         for t, i, j, errno in workload.get('stdout_faults', ()):
             m.stdout.table[(t, i)] = [j, errno]
@@ -913,7 +947,7 @@ def plan(tier):
     add('concurrent', 2, 1500, 25)
     add('concurrent', 3, 1000, 25)
     add('concurrent', 500, 500, 25)
-    add('big', 500, 32, 2)
+    add('big', 500, 64, 2)
     return {'budget_s': budget, 'configs': cfgs, 'minimise_budget': 500}
 
 
